@@ -276,6 +276,30 @@ def r17_12(run, model):
                    "p.tag() prints exact, Pair::tag(p) prints generic")
 
 
+def r17_13(run, model):
+    run.rule("R17.13", "the dot form looks a method up where the path form finds it: the functions that map a receiver type to the package / "
+                       "constructor that owns its methods treat an instance `T[args]` like `T` - each has an arm for TApp that goes on with "
+                       "the head type (otherwise `c.get()` on `Lib::Cell[int32]` is searched in the calling package while `Lib::Cell::get(c)` works)")
+    n = 0
+    for name, rel, impl in (("env_for_receiver_ty", CHECK, None), ("try_constr_name", "crates/compiler/src/typer/util.rs", None),
+                            ("constr_name", "crates/compiler/src/tast.rs", "Ty")):
+        f = model.fn(name, rel, impl=impl) if impl else model.fn(name, rel)
+        ms = list(S.find(f.body, "Match"))
+        if not ms:
+            raise AnalysisIncomplete(f"{name}: match on the type not found")
+        arm = None
+        for a in ms[0]["arms"]:
+            if any(h[0] == "variant" and h[1][-1] == "TApp" for h in (S.pat_head(x) for x in S.pat_alts(a["pat"]))):
+                arm = a
+        n += 1
+        recurses = arm is not None and any(c["k"] in ("Call", "MethodCall") and S.callee_name(c) == name for c in S.walk(arm["body"]))
+        run.ob("R17.13", f"{name}|an instance T[args] is resolved through its head type", recurses, site(rel, (arm or f.node)["sp"]),
+               "TApp arm goes on with the head" if recurses else ("no TApp arm: instances fall to the catch-all" if arm is None else "TApp arm does not recurse"),
+               witness="package Lib: struct Cell[T], impl[T] Cell[T] { fn get(self) }; in Main `c.get()` on Lib::Cell[int32]: Method get not found, "
+                       "while Lib::Cell::get(c) compiles")
+    run.floor("receiver-type resolvers examined", n, 3)
+
+
 def run(run, model):
     run.try_rule(r17_1, model)
     run.try_rule(r17_2, model)
@@ -285,6 +309,7 @@ def run(run, model):
     run.try_rule(r17_10, model)
     run.try_rule(r17_11, model)
     run.try_rule(r17_12, model)
+    run.try_rule(r17_13, model)
     from rules import c01
     from lib import passes as P
     run.rule("R17.7", "every coercion to dyn gets its vtable: the collector that decides which vtable constructors and wrappers are generated "
